@@ -9,6 +9,7 @@ import NgVerif.Model.Raw
 import NgVerif.Model.Coords
 import NgVerif.Model.Conv
 import NgVerif.Model.Down
+import NgVerif.Model.Pyramid
 /-
   ngdriver: line protocol. One request per line on stdin (space-separated tokens),
   one reply per line on stdout. Unknown / malformed requests answer `bad-request`.
@@ -288,6 +289,20 @@ def handle (toks : List String) : String :=
       else
         hdr ++ showList (fun (r : Option Int) => match r with | some v => toString v | none => "wrap")
           (coords.map fun (z, y, x) => Down.average t f e o fz fy fx z y x)
+    | _, _, _, _ => "bad-request"
+  | ["pyr-axis", os, ns, oc, nc] =>
+    match parseNat os, parseNat ns, parseNat oc, parseNat nc with
+    | some os, some ns, some oc, some nc =>
+      let a : Pyramid.Axis := ⟨os, ns, oc, nc⟩
+      let showE : Pyramid.Err → String
+        | .zeroDiv => "zerodiv" | .factor => "factor" | .noChunk => "nochunk" | .shape => "shape"
+      -- first failing new chunk in index order, else all source starts
+      let chunks := List.range (Pyramid.newChunks a)
+      match chunks.findSome? (fun n => match Pyramid.plan a n with | .error e => some e | .ok _ => none) with
+      | some e => "err " ++ showE e
+      | none =>
+        "ok " ++ showList (fun p => match Pyramid.sourceStart a p with
+          | .ok s => toString s | .error e => showE e) (List.range ns)
     | _, _, _, _ => "bad-request"
   | _ => "bad-request"
 
